@@ -125,7 +125,7 @@ def add_decoder(reg):
                                           'bytes(output) == bytes(len(em) - len(sentinel)) + sentinel)' % (bad, ok)},
                      modifies=['output'], result='int', unchanged_on_raise=True,
                      options={'ssize_len': True},
-                     opaque=[S + 'eme_pkcs1_v15_ok', S + 'eme_pkcs1_v15_sep']))
+                     opaque=[S + 'eme_pkcs1_v15_padded', S + 'eme_pkcs1_v15_sep']))
 
 
 def model_decode_call(E, st, args, kwargs):
@@ -155,10 +155,24 @@ def model_decode_call(E, st, args, kwargs):
 
 # ---------------------------------------------------------------- decrypt
 
-def add_decrypt(reg, ct_type='bytes', sentinel_type='any|bytes|none|int'):
+def add_decrypt(reg, ct_type='bytes', sentinel_type='any|bytes|bytearray|memoryview|none|int'):
     em = 'i2osp(pow(be(ciphertext), %s, %s), %s)' % (D_, N_, K_)
     in_range = 'len(ciphertext) == %s and be(ciphertext) < %s' % (K_, N_)
     ok = S + 'eme_pkcs1_v15_ok(%s, expected_pt_len)' % em
+    msg = '(isinstance(result, bytes) and result == %seme_pkcs1_v15_msg(%s))' % (S, em)
+    # "the caller's sentinel": the very object; for byte strings and integers (values) an equal one
+    sentinel = '((result == sentinel) if isinstance(sentinel, (bytes, bytearray, memoryview, int)) else (result is sentinel))'
+    # The statement of C07 for ALL keys, sentinels and expected lengths is  ok ==> M  and  not ok ==> sentinel.  It is split by
+    # input class so that each class is its own obligation (the union of the classes is everything):
+    #   main:      k >= 12 and 0 <= expected_pt_len <= k - 11     (0 = unknown, else a length that some message can have)
+    #   too_long:  k - 11 < expected_pt_len < 2**64               (no message has that length: always the sentinel)
+    #   no_size_t: expected_pt_len < 0 or >= 2**64                (the same, for values that do not fit the C parameter)
+    #   k11:       k <= 11 and 0 <= expected_pt_len <= k - 11     (k == 11 admits exactly the empty message, RFC 8017 7.2.1)
+    # (clauses are written with the strict forms all(..) / any(..): no case split while they are evaluated)
+    main = 'all((%s >= 12, 0 <= expected_pt_len, expected_pt_len <= %s - 11))' % (K_, K_)
+    too_long = 'all((expected_pt_len > %s - 11, 0 <= expected_pt_len, expected_pt_len < %s))' % (K_, TWO64)
+    no_size_t = 'any((expected_pt_len < 0, expected_pt_len >= %s))' % TWO64
+    k11 = 'all((%s <= 11, 0 <= expected_pt_len, expected_pt_len <= %s - 11))' % (K_, K_)
     reg.add(Contract(C + 'PKCS115_Cipher.decrypt',
                      params={'ciphertext': ct_type, 'sentinel': sentinel_type, 'expected_pt_len': 'int'},
                      # domain: the decoder reports positions in a C `int` (keys up to 2**31 - 1 octets, i.e. 17 Gbit moduli)
@@ -166,26 +180,51 @@ def add_decrypt(reg, ct_type='bytes', sentinel_type='any|bytes|none|int'):
                      raises={'ValueError': ('iff', 'not (%s)' % in_range),                  # 7.2.2 step 1 / RSADP range
                              'TypeError': ('iff', '(%s) and not hasattr(self._key, "_d")' % in_range)},
                      ensures={
-                         # C07: a correctly padded message is never replaced by the sentinel ...
-                         'message': '%s ==> (isinstance(result, bytes) and result == %seme_pkcs1_v15_msg(%s))' % (ok, S, em),
-                         # ... and an incorrectly padded one (or one of the wrong length) is never returned as plaintext:
-                         # the caller's sentinel comes back, whatever object it is
-                         'sentinel': 'not %s ==> ((result == sentinel) if isinstance(sentinel, bytes) else (result is sentinel))' % ok},
+                         # a correctly padded message is never replaced by the sentinel ...
+                         'message': 'any((not %s, not %s, %s))' % (main, ok, msg),
+                         # ... and an incorrectly padded one (or one of the wrong length) is never returned as plaintext: the
+                         # caller's sentinel comes back, whatever object it is
+                         'sentinel': 'any((not %s, %s, %s))' % (main, ok, sentinel),
+                         'length_too_long': 'any((not %s, %s))' % (too_long, sentinel),
+                         'length_not_a_size_t': 'any((not %s, %s))' % (no_size_t, sentinel),
+                         'k11_message': 'any((not %s, not %s, %s))' % (k11, ok, msg),
+                         'k11_sentinel': 'any((not %s, %s, %s))' % (k11, ok, sentinel)},
                      modifies=[],
-                     opaque=[S + 'eme_pkcs1_v15_sep']))
+                     opaque=[S + 'eme_pkcs1_v15_sep', S + 'eme_pkcs1_v15_padded', S + 'octets']))
+
+
+# ---------------------------------------------------------------- lemmas about the spec functions (the SIG facts of spec/rfc8017.py)
+
+def add_spec_lemmas(reg):
+    """the `facts` that spec/rfc8017.py attaches to eme_pkcs1_v15_sep / eme_pkcs1_v15_padded (used where they are opaque) are
+    proved here from their definitions: the spec functions themselves are the functions under contract"""
+    reg.add(Contract(S + 'eme_pkcs1_v15_sep', params={'em': 'bytes'}, raises={}, modifies=[], result='int',
+                     ensures={'fact': 'result == -1 or (10 <= result and result < len(em))'}))
+    reg.add(Contract(S + 'eme_pkcs1_v15_padded', params={'em': 'bytes'}, raises={}, modifies=[], result='bool',
+                     inline=[S + 'eme_pkcs1_v15_sep'],       # its definition, not the lemma above
+                     ensures={'fact': 'result ==> %seme_pkcs1_v15_sep(em) >= 10' % S,
+                              'room': 'result ==> len(em) - 1 - %seme_pkcs1_v15_sep(em) <= len(em) - 11' % S}))
+    reg.add(Contract(S + 'octets', params={'n': 'int'}, raises={}, modifies=[], result='int', ensures={'fact': 'result >= 1'}))
+
+
+BUFFERS = ('bytes', 'bytearray', 'memoryview')
 
 
 def registry(variant=''):
-    """variant 'decrypt': the registry of decrypt's proof (the wrapper call is the model (b) over the wrapper's contract)"""
+    """variant '<function>:<buffer type>' selects the type of the message / ciphertext argument (one unit per type);
+    'decrypt:*' is the registry of decrypt's proof (the wrapper call is the model (b) over the wrapper's contract)"""
+    what, _, buf = variant.partition(':')
     reg = common_registry()
     add_rsa_key(reg)
     add_key_primitives(reg)
     add_randfunc(reg)
     add_cipher_class(reg)
-    add_encrypt(reg)
+    add_encrypt(reg, buf if what == 'encrypt' else 'bytes')
     add_decoder(reg)
-    add_decrypt(reg)
-    if variant == 'decrypt':
+    add_decrypt(reg, buf if what == 'decrypt' else 'bytes')
+    if what == 'lemmas':
+        add_spec_lemmas(reg)
+    if what == 'decrypt':
         reg.models[W] = model_decode_call
     return reg
 
@@ -195,7 +234,11 @@ def units(prop, tier):
     if prop != 'C07':
         return []
     out = []
-    out.append(pyvc_unit(prop, 'enc.pkcs1v15.encrypt', registry, [C + 'PKCS115_Cipher.encrypt']))
+    for b in BUFFERS:
+        out.append(pyvc_unit(prop, 'enc.pkcs1v15.encrypt.' + b, (lambda b=b: registry('encrypt:' + b)), [C + 'PKCS115_Cipher.encrypt']))
     out.append(pyvc_unit(prop, 'enc.pkcs1v15.pkcs1_decode_wrapper', registry, [W]))
-    out.append(pyvc_unit(prop, 'enc.pkcs1v15.decrypt', (lambda: registry('decrypt')), [C + 'PKCS115_Cipher.decrypt']))
+    out.append(pyvc_unit(prop, 'enc.pkcs1v15.spec_lemmas', (lambda: registry('lemmas')),
+                         [S + 'eme_pkcs1_v15_sep', S + 'eme_pkcs1_v15_padded', S + 'octets']))
+    for b in BUFFERS:
+        out.append(pyvc_unit(prop, 'enc.pkcs1v15.decrypt.' + b, (lambda b=b: registry('decrypt:' + b)), [C + 'PKCS115_Cipher.decrypt']))
     return out
